@@ -607,7 +607,7 @@ def r_tab_de(ctx, rep):
         return
     n = 0
     for fn in fns:
-        mname = fn.name.rsplit("::", 1)[1]
+        mname = fn.name.rsplit("::", 1)[-1]
         self_lid = None
         for p in fn.params:
             for nm, lid in pat_bindings(p):
